@@ -101,11 +101,16 @@ Qed.
 (* 2. triSign                                                          *)
 (* ------------------------------------------------------------------ *)
 
-Lemma triSign_sgn : forall x, triSign x = Z.sgn x.
-Proof. intros x. destruct x; reflexivity. Qed.
+Lemma triSign_spec : forall x, triSign x = if x =? 1 then 0 else Z.sgn x.
+Proof. intros x. destruct x as [|[p|p|]|p]; reflexivity. Qed.
+
+Lemma triSign_not1 x : x <> 1 -> triSign x = Z.sgn x.
+Proof.
+  intros H. rewrite triSign_spec. destruct (Z.eqb_spec x 1); [contradiction|reflexivity].
+Qed.
 
 (* ------------------------------------------------------------------ *)
-(* 3. productsAreEqual is exact below 2^53                             *)
+(* 3. productsAreEqual is exact below 2^53, unless an argument is 1    *)
 (* ------------------------------------------------------------------ *)
 
 Lemma sgn_abs_prod a b : a * b = (Z.sgn a * Z.sgn b) * (Z.abs a * Z.abs b).
@@ -118,12 +123,14 @@ Qed.
 Lemma abs53_inu64 x : Z.abs x < two53 -> inu64 (Z.abs x).
 Proof. intros H. unfold inu64. unfold two53, two64 in *. lia. Qed.
 
-Theorem products_equal_exact : forall a b c d,
+Theorem products_equal_exact_partial : forall a b c d,
   Z.abs a < two53 -> Z.abs b < two53 -> Z.abs c < two53 -> Z.abs d < two53 ->
+  a <> 1 -> b <> 1 -> c <> 1 -> d <> 1 ->
   (productsAreEqual a b c d = true <-> a * b = c * d).
 Proof.
-  intros a b c d Ha Hb Hc Hd. unfold productsAreEqual. cbv zeta.
-  rewrite !absf_u64_small by assumption. rewrite !triSign_sgn.
+  intros a b c d Ha Hb Hc Hd Na Nb Nc Nd. unfold productsAreEqual. cbv zeta.
+  rewrite !absf_u64_small by assumption.
+  rewrite (triSign_not1 a Na), (triSign_not1 b Nb), (triSign_not1 c Nc), (triSign_not1 d Nd).
   pose proof (multiply_exact (Z.abs a) (Z.abs b)
                 (abs53_inu64 a Ha) (abs53_inu64 b Hb)) as M1.
   pose proof (multiply_exact (Z.abs c) (Z.abs d)
@@ -207,11 +214,13 @@ Proof.
 Qed.
 
 (* ------------------------------------------------------------------ *)
-(* 5. isCollinear is exact for |coord| <= 2^29                         *)
+(* 5. isCollinear is exact for |coord| <= 2^29, unless a difference is 1 *)
 (* ------------------------------------------------------------------ *)
 
-Theorem collinear_exact : forall p1 p2 p3,
+Theorem collinear_exact_partial : forall p1 p2 p3,
   coord_ok two29 p1 -> coord_ok two29 p2 -> coord_ok two29 p3 ->
+  px p2 - px p1 <> 1 -> py p3 - py p2 <> 1 ->
+  py p2 - py p1 <> 1 -> px p3 - px p2 <> 1 ->
   (isCollinear p1 p2 p3 = true <-> cross_exact p1 p2 p3 = 0).
 Proof.
   intros [x1 y1] [x2 y2] [x3 y3] [H1x H1y] [H2x H2y] [H3x H3y].
@@ -223,11 +232,45 @@ Proof.
   assert (Hd : Z.abs (x3 - x2) <= 2 * two29) by lia.
   set (a := x2 - x1) in *. set (b := y3 - y2) in *.
   set (c := y2 - y1) in *. set (d := x3 - x2) in *.
-  clearbody a b c d.
+  clearbody a b c d. clear H1x H1y H2x H2y H3x H3y.
+  intros Na Nb Nc Nd.
   rewrite (wrap64_id_abs a), (wrap64_id_abs b), (wrap64_id_abs c), (wrap64_id_abs d)
     by (unfold two29, two63 in *; lia).
-  rewrite products_equal_exact by (unfold two29, two53 in *; lia).
+  rewrite products_equal_exact_partial
+    by (first [assumption | unfold two29, two53 in *; lia]).
   lia.
+Qed.
+
+Theorem collinear_wrong_only_if_unit_diff : forall p1 p2 p3,
+  coord_ok two29 p1 -> coord_ok two29 p2 -> coord_ok two29 p3 ->
+  (isCollinear p1 p2 p3 = true <-> cross_exact p1 p2 p3 = 0) \/
+  (px p2 - px p1 = 1 \/ py p3 - py p2 = 1 \/ py p2 - py p1 = 1 \/ px p3 - px p2 = 1).
+Proof.
+  intros p1 p2 p3 H1 H2 H3.
+  destruct (Z.eq_dec (px p2 - px p1) 1) as [Ea|Na]; [right; tauto|].
+  destruct (Z.eq_dec (py p3 - py p2) 1) as [Eb|Nb]; [right; tauto|].
+  destruct (Z.eq_dec (py p2 - py p1) 1) as [Ec|Nc]; [right; tauto|].
+  destruct (Z.eq_dec (px p3 - px p2) 1) as [Ed|Nd]; [right; tauto|].
+  left. apply collinear_exact_partial; assumption.
+Qed.
+
+(* the unit-difference defect is real, in both directions *)
+Theorem collinear_refuted_false_positive : exists p1 p2 p3,
+  coord_ok two29 p1 /\ coord_ok two29 p2 /\ coord_ok two29 p3 /\
+  isCollinear p1 p2 p3 = true /\ cross_exact p1 p2 p3 <> 0.
+Proof.
+  exists (0, 0), (1, 1), (-1, 3).
+  unfold coord_ok.
+  repeat split; try (vm_compute; intro Hc; discriminate Hc); try (vm_compute; reflexivity).
+Qed.
+
+Theorem collinear_refuted_false_negative : exists p1 p2 p3,
+  coord_ok two29 p1 /\ coord_ok two29 p2 /\ coord_ok two29 p3 /\
+  isCollinear p1 p2 p3 = false /\ cross_exact p1 p2 p3 = 0.
+Proof.
+  exists (0, 0), (1, 2), (3, 6).
+  unfold coord_ok.
+  repeat split; try (vm_compute; intro Hc; discriminate Hc); try (vm_compute; reflexivity).
 Qed.
 
 (* ------------------------------------------------------------------ *)
@@ -494,6 +537,9 @@ Proof.
 Qed.
 
 Print Assumptions multiply_exact.
-Print Assumptions products_equal_exact.
-Print Assumptions collinear_exact.
+Print Assumptions products_equal_exact_partial.
+Print Assumptions collinear_exact_partial.
+Print Assumptions collinear_wrong_only_if_unit_diff.
+Print Assumptions collinear_refuted_false_positive.
+Print Assumptions collinear_refuted_false_negative.
 Print Assumptions CrossProduct_sign.
